@@ -271,7 +271,8 @@ var c19Mutations = []struct {
 		i := cand[rapid.IntRange(0, len(cand)-1).Draw(t, "fixed_i")]
 		a := &p.attrs[i]
 		cur := len(a.Value)
-		n := cur + rapid.SampledFrom([]int{-4, -3, -2, -1, 1, 2, 3, 4}).Draw(t, "fixed_d")
+		// (+255 .. +512: lengths that equal the right one modulo 256 or need the extended length form)
+		n := cur + rapid.SampledFrom([]int{-4, -3, -2, -1, 1, 2, 3, 4, 1, 2, 4, 255, 256, 256, 257, 512}).Draw(t, "fixed_d")
 		if n < 0 {
 			n = cur + 1
 		}
